@@ -128,6 +128,14 @@ def three {α : Type} : List α → Option (α × α × α)
   | [a, b, c] => some (a, b, c)
   | _ => none
 
+/-- `int(u) - 1` of a parsed integer (1-based index): results below 0 leave the modelled domain -/
+def decr1 (i : Int) : Option Nat := if 1 ≤ i then some (i - 1).toNat else none
+
+/-- `int(<whole line>)`: the line is one token (anything else: ValueError) -/
+def one {α : Type} : List α → Option α
+  | [a] => some a
+  | _ => none
+
 /-- a vertex record handed to `vertices.append`: exactly three coordinates (anything else leaves the modelled domain) -/
 def vec3 : List C → Option (C × C × C)
   | [x, y, z] => some (x, y, z)
